@@ -278,11 +278,51 @@ def e3_constructors():
                 "k", "n", 0.5, 1.0, parent=r, min_value=1.0, max_value=1.0)),
             ("qty min>=max", lambda r: InputParameterQuantity(
                 "k", "n", Length(1), 1.0, parent=r, min_si=5.0, max_si=1.0)),
+            ("int min==max", lambda r: InputParameterInt(
+                "k", "n", 5, 1.0, parent=r, min_value=5, max_value=5)),
+            ("float min>max", lambda r: InputParameterFloat(
+                "k", "n", 0.5, 1.0, parent=r, min_value=1.0, max_value=0.0)),
+            ("qty min==max", lambda r: InputParameterQuantity(
+                "k", "n", Length(1), 1.0, parent=r, min_si=1.0, max_si=1.0)),
             ("sel options not list", lambda r: InputParameterSelectionList(
                 "k", "n", "ab", "a", 1.0, parent=r)),
             ("sel option not str", lambda r: InputParameterSelectionList(
                 "k", "n", ["a", 1], "a", 1.0, parent=r))):
         attempt("decl", label, f, False)
+    # a default exactly on a declared bound is inside the bounds
+    for label, f in (
+            ("int default==min", lambda r: InputParameterInt(
+                "k", "n", 0, 1.0, parent=r, min_value=0, max_value=10)),
+            ("int default==max", lambda r: InputParameterInt(
+                "k", "n", 10, 1.0, parent=r, min_value=0, max_value=10)),
+            ("float default==min", lambda r: InputParameterFloat(
+                "k", "n", 0.5, 1.0, parent=r, min_value=0.5, max_value=2.0)),
+            ("float default==max", lambda r: InputParameterFloat(
+                "k", "n", 2.0, 1.0, parent=r, min_value=0.5, max_value=2.0)),
+            ("qty default==min", lambda r: InputParameterQuantity(
+                "k", "n", Length(1), 1.0, parent=r, min_si=1.0, max_si=5.0)),
+            ("qty default==max", lambda r: InputParameterQuantity(
+                "k", "n", Length(5), 1.0, parent=r, min_si=1.0, max_si=5.0))):
+        attempt("decl", label, f, True)
+    # the model's parameter map can be replaced by another map only
+    from pydsol.core.model import DSOLModel
+    model = new_model()
+    fresh = InputParameterMap("root", "parameters", 1)
+    n += 2
+    try:
+        model.input_parameters = fresh
+        if model.input_parameters is not fresh:
+            bad.append(("model-parameter-map-not-replaced", "decl", "setter"))
+    except Exception as ex:  # noqa
+        bad.append(("model-parameter-map-refused", "decl", type(ex).__name__))
+    try:
+        model.input_parameters = {"not": "a map"}
+        bad.append(("model-parameter-map-accepts-anything", "decl", "setter"))
+    except TypeError:
+        pass
+    except Exception as ex:  # noqa
+        bad.append(("model-parameter-map-wrong-exception", "decl",
+                    type(ex).__name__))
     return n, bad
 
 
@@ -492,6 +532,16 @@ def observe(model, rroot):
         ek = obj.extended_key()
         if ek != "root." + dotted:
             bad.append(("extended-key", dotted, ek))
+        if node.kind == "map":
+            # a map is read-only: its children are not replaced by set_value
+            before = list(obj.value.keys())
+            try:
+                obj.set_value({})
+                bad.append(("map-accepts-set_value", dotted))
+            except Exception:  # noqa
+                pass
+            if list(obj.value.keys()) != before:
+                bad.append(("map-children-changed-by-set_value", dotted))
         # the default value is what it was after construction (for a map:
         # whatever children come and go)
         if obj.default_value != node.default0 or (
